@@ -343,3 +343,43 @@ def orphan_dropped_beside_waiting(which, stray: bool, c0: int, c1: int, c2: int,
 
 SCN["orphan_dropped_beside_waiting"] = ([], 300, 900, ("quick", "thorough"))
 scn.__dict__["orphan_dropped_beside_waiting"] = orphan_dropped_beside_waiting
+
+
+def exec_timeout_handled(which, kind: int, c0: int, c1: int, c2: int, c3: int, c4: int, c5: int):
+    """The machine's TimeoutSeconds (2 s) expires while the execution is blocked inside a state that HAS error handling:
+    a Task with a catch-all Catcher (kind 0), a Parallel [Wait 5 s | Task that never replies] with a catch-all Catcher
+    (kind 1) or Retrier (kind 3), a Map over Waits with a catch-all Catcher (kind 2), a Task with Retriers for
+    States.Timeout and States.ALL (kind 4).  "... fails with States.Timeout that no Retry or Catch can intercept":
+    FAILED/States.Timeout at exactly +2 s, the Catcher's state never entered."""
+    kind = cint(kind, 0, 4)
+    W = {"Type": "Wait", "Seconds": 5, "End": True}
+    T = task("never", End=True)
+    catch = [{"ErrorEquals": ["States.Timeout"], "Next": "R"}, {"ErrorEquals": ["States.ALL"], "Next": "R"}]
+    retry = [{"ErrorEquals": ["States.Timeout"], "IntervalSeconds": 1, "MaxAttempts": 2}, {"ErrorEquals": ["States.ALL"], "IntervalSeconds": 1, "MaxAttempts": 2}]
+    if kind == 0:
+        a = task("never", Next="Z", Catch=catch)
+    elif kind == 1:
+        a = {"Type": "Parallel", "Next": "Z", "Catch": catch, "Branches": [{"StartAt": "W", "States": {"W": W}}, {"StartAt": "T", "States": {"T": T}}]}
+    elif kind == 2:
+        a = {"Type": "Map", "ItemsPath": "$.items", "Next": "Z", "Catch": catch, "Iterator": {"StartAt": "W", "States": {"W": W}}}
+    elif kind == 3:
+        a = {"Type": "Parallel", "Next": "Z", "Retry": retry, "Branches": [{"StartAt": "W", "States": {"W": W}}, {"StartAt": "T", "States": {"T": T}}]}
+    else:
+        a = task("never", Next="Z", Retry=retry)
+    asl = {"StartAt": "A", "TimeoutSeconds": 2, "States": {"A": a, "Z": {"Type": "Pass", "End": True},
+                                                           "R": {"Type": "Pass", "Result": "recovered", "End": True}}}
+
+    def chk(run, inst, mon):
+        ts = sim.terminals()
+        if len(ts) != 1:
+            return "terminals %d" % len(ts)
+        d = ts[0]
+        if (d["stopDate"] - d["startDate"]) != 2000:
+            return "C08 execution time-out after %d ms, expected 2000" % (d["stopDate"] - d["startDate"])
+        return ""
+    return _run(asl, {"x": 1, "items": [1, 2]}, [c0, c1, c2, c3, c4, c5], {"never": lambda req: None}, which, "STANDARD",
+                ("FAILED", "States.Timeout"), extra_check=chk, max_steps=160)
+
+
+SCN["exec_timeout_handled"] = (["0 <= kind < 5"], 300, 900, ("quick", "thorough"))
+scn.__dict__["exec_timeout_handled"] = exec_timeout_handled
